@@ -186,6 +186,10 @@ impl TypedReprRef<'_> {
         if leading_zeros % 8 == 0 {
             // add extra byte representing the sign, because the top bit is used
             bytes.push(if negate { 0xff } else { 0 });
+        } else if negate && bytes.last().map_or(true, |b| b & 0x80 == 0) {
+            // the magnitude is a multiple of 256^k: the negated low bytes are all zero and
+            // the trimmed encoding lost its sign bit
+            bytes.push(0xff);
         }
 
         bytes
@@ -234,6 +238,10 @@ impl TypedReprRef<'_> {
         if leading_zeros % 8 == 0 {
             // add extra byte representing the sign, because the top bit is used
             bytes.insert(0, if negate { 0xff } else { 0 });
+        } else if negate && bytes.first().map_or(true, |b| b & 0x80 == 0) {
+            // the magnitude is a multiple of 256^k: the negated low bytes are all zero and
+            // the trimmed encoding lost its sign bit
+            bytes.insert(0, 0xff);
         }
 
         bytes
